@@ -114,9 +114,18 @@ def nonmembership(ctx):
                  else 'arguments are not (root_hash, proof.longest_prefix_membership_proof)',
                  'membership of the anchor node is verified against root_hash and propagated')
     # O7: the anchor is the deepest matching node: no child label is a prefix of the label
-    side = side_blocks(vn, lambda fc: fc[0] == 'rel' and fc[1] in ('eq', 'ne') and
-                       any(has_call(x, 'empty_label') for x in (fc[2], fc[3])) and
-                       any(has_leaf(x, CH) for x in (fc[2], fc[3])))
+    # the only legitimate side condition: `children[i].label != empty_label()` on that very child (NOT any comparison
+    # that merely mentions the children, e.g. `lcp(children) == empty_label()`, which lies on every path and would make
+    # the must-pass-through test vacuous — seeded change C06-r1-a)
+    def is_side(fc):
+        if fc[0] != 'rel' or fc[1] not in ('eq', 'ne'):
+            return False
+        for x, y in ((fc[2], fc[3]), (fc[3], fc[2])):
+            if y[0] == 'call' and has_call(y, 'empty_label') and not y[3] and \
+                    norm_idx(access_path(x) or '') == CH + '[].label':
+                return True
+        return False
+    side = side_edges(vn, lambda fc: is_side(fc) and fc[1] == 'eq')
     for i in (0, 1):
         def o7(fc, i=i):
             if fc[0] != 'pred' or not fc[1].endswith('is_prefix_of') or fc[3] is not True:
@@ -127,7 +136,7 @@ def nonmembership(ctx):
         require_guard(ctx, vn, 'C05.O7[%d]' % i, 'RF-GUARD', o7,
                       'reject when children[%d].label (other than the empty label) is a prefix of label '
                       '(anchor must be the deepest matching node)' % i,
-                      extra_barriers=side, per_iteration=True)
+                      bypass_edges=side, per_iteration=True)
 
     # ---- RF-COVER over NonMembershipProof: every field reaches a guard or a checked call
     lv = set()
